@@ -46,7 +46,7 @@ static int runb(int argc, tok_t *a, out_t *o, fb_t f) {
   return 0;
 }
 #define OPB(fn) static int op_##fn(int argc, tok_t *a, out_t *o) { return runb(argc, a, o, mpz_##fn); }
-OPB(mul_2exp) OPB(tdiv_q_2exp)
+OPB(mul_2exp) OPB(tdiv_q_2exp) OPB(cdiv_q_2exp) OPB(fdiv_q_2exp)
 #define OP4(fn) static int op_##fn(int argc, tok_t *a, out_t *o) { return run(argc, a, o, 0, mpz_##fn); }
 #define OP3(fn) static int op_##fn(int argc, tok_t *a, out_t *o) { return run(argc, a, o, mpz_##fn, 0); }
 OP4(tdiv_qr) OP4(fdiv_qr) OP4(cdiv_qr)
@@ -90,6 +90,7 @@ const opdef_t ops_alias[] = {
   {"alias_cdiv_q", op_cdiv_q}, {"alias_cdiv_r", op_cdiv_r}, {"alias_mod", op_mod},
   {"alias_and", op_and}, {"alias_ior", op_ior}, {"alias_xor", op_xor}, {"alias_com", op_com}, {"alias_neg", op_neg}, {"alias_abs", op_abs}, {"alias_set", op_set},   /* alias_com w u _ _ … */
   {"alias_mul_2exp", op_mul_2exp}, {"alias_tdiv_q_2exp", op_tdiv_q_2exp},
+  {"alias_cdiv_q_2exp", op_cdiv_q_2exp}, {"alias_fdiv_q_2exp", op_fdiv_q_2exp},
   {"alias_divexact", op_divexact},      /* the generator keeps to the documented domain: den != 0 and den | num */
   {0, 0}
 };
